@@ -11,7 +11,7 @@ PID = "C10"
 MODULES = ["GroupbyVerif.Props.C10", "GroupbyVerif.LoopBridge.Ema"]
 RULE = ("seeded random interleavings of <= 3 groups (null keys included), null/mask placements incl. leading nulls, value dtypes f64 f32 i32 i64; "
         "untimed: alpha in {1, 1/2, 1/4, 3/4} exactly (dyadic: float arithmetic exact on small inputs is NOT assumed - comparison is to 1e-12 relative) and "
-        "real halflives {0.5, 1, 2.5, 7} vs alpha = 1 - 2^(-1/h); timed: irregular timestamps in s/ms/us/ns units incl. pre-1970, halflife strings; "
+        "real halflives {0.5, 1, 2.5, 7} vs alpha = 1 - 2^(-1/h); timed: irregular timestamps in s/ms/us/ns units incl. pre-1970, halflife strings incl. halflives that are not a whole number of the timestamps' unit (0.75 s, 1.75 s, 2.5 s), tz-aware timestamps across DST changes; "
         "entry points ema / ema_grouped / GroupBy.ema (both layouts, ndarray and indexed Series); relations: closed form, invalid rows repeat, null until "
         "first valid, group independence, halflife == alpha, grouped == ungrouped from the first valid row; non-trivial = a group with >= 2 valid rows; "
         "distinct = distinct (case, entry point)")
